@@ -78,6 +78,10 @@ class Interp(ExprMixin):
         g = z3.simplify(goal)
         if z3.is_true(g):
             self.ctx.trivial += 1
+            if kind in ("post", "inv-init", "inv-preserve", "raises", "pre"):
+                ob = Obligation(f"{self.ctx.unit}#{name}", [], z3.BoolVal(True), kind, site, self.ctx.unit, meta)
+                ob.verdict, ob.backend = "discharged", "z3-simplify"
+                self.ctx.obligations.append(ob)
             return
         ob = Obligation(f"{self.ctx.unit}#{name}", list(state.pc), goal, kind, site, self.ctx.unit, meta)
         ob.meta.setdefault("path", list(state.path))
@@ -304,7 +308,40 @@ class Interp(ExprMixin):
             return self._merged_if(st, s, c)
         b = self.decide(st, c, f"if@{s.lineno}")
         self.ctx.cover(s.lineno, b)
+        self.refine_optional(st, s.test, b)
         return self.exec_block(st, s.body if b else s.orelse)
+
+    def refine_optional(self, st, test, outcome):
+        """After branching on `x is None` / `x is not None` / `x` / `not x` for a local name bound to an Opt value,
+        rebind the name to the payload (or None) in the chosen branch."""
+        neg = False
+        t = test
+        while isinstance(t, ast.UnaryOp) and isinstance(t.op, ast.Not):
+            neg = not neg
+            t = t.operand
+        if isinstance(t, ast.BoolOp) and isinstance(t.op, ast.And) and outcome != neg and not neg:
+            for v in t.values:
+                self.refine_optional(st, v, True)
+            return
+        name, mode = None, None
+        if isinstance(t, ast.Name):
+            name, mode = t.id, "truthy"
+        elif isinstance(t, ast.Compare) and len(t.ops) == 1 and isinstance(t.left, ast.Name) \
+                and isinstance(t.comparators[0], ast.Constant) and t.comparators[0].value is None:
+            if isinstance(t.ops[0], ast.Is):
+                name, mode = t.left.id, "isnone"
+            elif isinstance(t.ops[0], ast.IsNot):
+                name, mode = t.left.id, "notnone"
+        if name is None or name not in st.env or not isinstance(st.env[name], Opt):
+            return
+        val = outcome != neg
+        o = st.env[name]
+        if mode == "isnone":
+            st.env[name] = None if val else o.payload
+        elif mode == "notnone":
+            st.env[name] = o.payload if val else None
+        elif mode == "truthy" and val:
+            st.env[name] = o.payload
 
     def _mergeable(self, s):
         for n in ast.walk(s):
